@@ -18,3 +18,7 @@ map[float64]string;bool -> float64;[]int
 # recursive and imported structs
 Rec -> int;string;bool
 ext.E1;int -> [2]string
+# arrays of pointers are not ==-comparable for mem (structural classes): seeded change C18-m3
+[2]*int -> int
+struct{F0 [2]*int;F1 string} -> string
+[2]*S0;int -> int
